@@ -79,7 +79,27 @@ def shaped_sets(rng, count, big=False):
         a = bytes(range(97, 123))
         add('big-4k', [rand_word(rng, a, 3, 9) for _ in range(3000)])       # > 4096 units: close_block inside expand
         add('big-bin', [rand_word(rng, bytes(range(256)), 1, 6) for _ in range(2500)])
-    return out[:count + (2 if big else 0)]
+        # gap-free shapes: every unit of the older blocks gets used, so block closing / free-list corner cases arise
+        add('big-caterpillar', [b'a' * i + b'b' for i in range(1, 2101)])
+        add('big-complete4', all_strings(b'abcd', 6)[1:])
+        add('big-complete2', all_strings(b'\x00\xff', 11))
+        add('big-comb', [bytes([97 + i % 26, 97 + (i // 26) % 26]) + b'x' * (i % 7) + bytes([48 + j]) for i in range(676) for j in range(4)])
+    return out[:count + (6 if big else 0)]
+
+def scale_sets(rng):
+    """key sets at 'natural' size boundaries (powers of two): shared-prefix depth around 2^16, a stored suffix that makes
+    the TAIL array exactly 2^16 / 2^20 bytes (+-1).  Run in the thorough tier and whenever an anchored source file
+    differs from anchors.lock.json."""
+    out = []
+    for d in (65535, 65536, 65537):
+        p = b'x' * d
+        out.append(('scale-deep-%d' % d, sorted([p, p + b'a', p + b'ab', p + b'ac', p + b'b', p + b'bcd', b'y'])))
+    for n in (2 ** 16, 2 ** 20):
+        for delta in (-1, 0, 1):
+            # NUL mode: chars = [0] + key + [0]  -> size = len + 2
+            out.append(('scale-tail-%d%+d' % (n, delta), [b'k' * (n + delta - 2)]))
+        out.append(('scale-tail2-%d' % n, sorted([b'a' + b'k' * (n // 2 - 2), b'b' + b'q' * (n - n // 2 - 3)])))
+    return out
 
 def huge_set(rng):
     """> 32768 units: second DAC level in the 15/16-bit variants"""
@@ -251,6 +271,8 @@ def cv_cases(rng, count):
     for c in range(count):
         w = rng.randint(1, 64)
         out.append(mk('cv-r%d' % c, [rng.getrandbits(w) for _ in range(rng.randint(1, 300))] + [1 << (w - 1)]))
+    for w in (1, 13, 33, 64):
+        out.append(mk('cv-large-w%d' % w, [rng.getrandbits(w) for _ in range(70000)] + [1 << (w - 1)]))
     return out
 
 def bc_cases(rng, count, tier):
@@ -277,6 +299,16 @@ def bc_cases(rng, count, tier):
         units = [((big + rng.randrange(1000)) ^ i, (big + i) ^ i, 0) for i in range(nrun)]
         units += [((3) ^ i, i, rng.randint(0, 1)) for i in range(nrun, nrun + 70)]
         out.append(mk('bc%d-saturate' % v, v, units))
+        # long mixed-magnitude vector: several blocks at every DAC level, large values before and after each block start
+        nbig = 60000 if tier == 'quick' else 200000
+        units = []
+        for i in range(nbig):
+            lf = 1 if rng.random() < 0.1 else 0
+            mag = rng.choice([7, 8, 15, 16, 16, 31, 32, 33, 48, 63, 64])
+            b = rng.getrandbits(mag) | (1 << (mag - 1))
+            ch = i if rng.random() < 0.05 else ((rng.getrandbits(rng.choice([7, 15, 16, 31, 32, 64])) | 1) ^ i)
+            units.append((b if lf else b ^ i, ch, lf))
+        out.append(mk('bc%d-large-mixed' % v, v, units))
         for c in range(count):
             n = rng.choice([1, 2, 63, 64, 65, 130, 300])
             dens = rng.choice([0.0, 0.05, 0.5, 1.0])
